@@ -15,6 +15,9 @@ from ..prng import Rng, derive
 from ..values import num, s, cls, first_diff, ERROR_KINDS
 from ..core import process_outcome, Stats, stable_hash
 
+import os
+MC_EVERY = int(os.environ.get("VERIF_MEMCHECK_EVERY", "64"))      # exploration knob: 1 = every case also runs under valgrind
+
 NG = 4
 BAD = [
     "var = ;",
@@ -733,7 +736,7 @@ class C15:
             # a slice of the plans also runs with collect-at-every-allocation + quarantine: whatever a later snippet
             # can still reach (through globals, closures, fibers, modules) must have survived the failed run
             runs.append(("checked+hooks", {"gc": {"mode": "always", "quarantine": True}}))
-        if key % 64 == 1 or sc.get("force_mc_slice"):
+        if key % MC_EVERY == 1 % MC_EVERY or sc.get("force_mc_slice"):
             # ... and a smaller slice in the optimised build collecting at every allocation, under valgrind (raw active-fiber
             # pointer, unchecked stack, cached instruction pointer after failed runs and resets)
             runs.append(("release+debug_stress_gc@memcheck", {}))
